@@ -38,6 +38,8 @@ def grids(scale):
         'to-saturation': numpy.concatenate([numpy.linspace(0.15, 0.95, 9), [0.99, 0.995, 0.9985, 0.9995]]),
         # a high-resolution scan across a condensation step: distinct pressures 4e-5 apart
         'high-resolution': numpy.concatenate([numpy.linspace(0.2, 0.58, 6), 0.6 + 4e-5 * numpy.arange(8), numpy.linspace(0.65, 0.95, 5)]),
+        # a micropore-resolution measurement: from far below the first point of any tabulated thickness curve
+        'from 2e-8': numpy.concatenate([numpy.geomspace(2e-8, 0.05, 12), numpy.linspace(0.1, 0.9, 7)]),
     }
 
 
@@ -67,10 +69,47 @@ def profiles(p):
     return out
 
 
+TABULATED = {'SiO2 Jaroniec/Kruk/Olivier': 'SiO2_JKO', 'carbon black Kruk/Jaroniec/Gadkaree': 'CB_KJG'}
+_TREF = {}
+
+
 def thickness_models():
     from pygaps.characterisation.models_thickness import get_thickness_model
-    return {'Halsey': get_thickness_model('Halsey'), 'Harkins/Jura': get_thickness_model('Harkins/Jura'),
-            'zero thickness': get_thickness_model('zero thickness'), 'callable': (lambda x: 0.25 + 0.6 * x)}
+    out = {'Halsey': get_thickness_model('Halsey'), 'Harkins/Jura': get_thickness_model('Harkins/Jura'),
+           'zero thickness': get_thickness_model('zero thickness'), 'callable': (lambda x: 0.25 + 0.6 * x)}
+    for name in TABULATED:
+        out[name] = get_thickness_model(name)
+    return out
+
+
+def thickness_reference(tname):
+    """What the thickness model is, written down independently of the library's function.
+
+    Equations: the published Halsey and Harkins-Jura equations (nm, nitrogen at 77 K).  Tabulated standard isotherms: number of layers
+    n / n_monolayer x 0.354 nm, linear between the tabulated points, NOTHING adsorbed below the first tabulated pressure, the last
+    tabulated thickness above the last one.
+    """
+    if tname in _TREF:
+        return _TREF[tname]
+    if tname == 'Halsey':
+        f = lambda x: 0.354 * (-5.0 / numpy.log(x)) ** 0.333       # (the library documents the exponent as 0.333)
+    elif tname == 'Harkins/Jura':
+        f = lambda x: numpy.sqrt(0.1399 / (0.034 - numpy.log10(x)))
+    elif tname == 'zero thickness':
+        f = lambda x: numpy.zeros_like(numpy.asarray(x, dtype=float))
+    elif tname == 'callable':
+        f = lambda x: 0.25 + 0.6 * numpy.asarray(x, dtype=float)
+    else:
+        from pygaps.data import STANDARD_ISOTHERMS
+        from pygaps.parsing.csv import isotherm_from_csv
+        iso = isotherm_from_csv(STANDARD_ISOTHERMS[TABULATED[tname]])
+        pp = numpy.asarray(iso.pressure(), dtype=float)
+        tt = numpy.asarray(iso.loading(), dtype=float) / float(iso.properties['monolayer uptake [mmol/g]']) * 0.354
+        order = numpy.argsort(pp)
+        pp, tt = pp[order], tt[order]
+        f = lambda x: numpy.interp(numpy.asarray(x, dtype=float), pp, tt, left=0.0, right=tt[-1])
+    _TREF[tname] = f
+    return f
 
 
 def work(arg):
@@ -100,7 +139,14 @@ def work(arg):
 
     # reference widths at every pressure
     rk = ref_kelvin(p, meniscus, pr, kjs=(kname == 'Kelvin-KJS'))
-    w_all = 2 * (rk + tm(p))
+    t_ref = thickness_reference(tname)(p)
+    ot = core.call(tm, p)
+    out['ev'] += 1
+    if not ot.ok or numpy.shape(ot.value) != numpy.shape(t_ref) or not numpy.allclose(ot.value, t_ref, rtol=1e-9, atol=1e-12):
+        v('thickness-model', f'thickness model {tname!r} at p/p0 = {p[:4]}... gives {ot.value[:4] if ot.ok else ot.brief()} but its definition gives {t_ref[:4]}', t_ref,
+          ot.value if ot.ok else ot.brief(), {'thickness': tname})
+        return out
+    w_all = 2 * (rk + t_ref)
     # Kelvin function itself
     o = core.call(km, p)
     out['ev'] += 1
@@ -259,7 +305,7 @@ def check_entry(ctx):
 
 def run(ctx):
     jobs = []
-    tnames = ['Halsey', 'Harkins/Jura', 'zero thickness', 'callable']
+    tnames = ['Halsey', 'Harkins/Jura', 'zero thickness', 'callable'] + list(TABULATED)
     for method, pores in (('pygaps-DH', ['slit', 'cylinder', 'sphere']), ('BJH', ['cylinder']), ('DH', ['cylinder'])):
         for pore in pores:
             for men in ('hemicylindrical', 'cylindrical', 'hemispherical'):
